@@ -24,7 +24,7 @@ ASSUMPTIONS = ['min z is taken from uts.zscore.zscore_array(x, uts.gradient.csd(
 def cases(draw, tier):
     n = draw(st.one_of(st.integers(4, 16), st.integers(4, 16), st.integers(4, 60 if tier == 'quick' else 400),
                       st.integers(4, 60 if tier == 'quick' else 400), st.integers(60, 200 if tier == 'quick' else 800)))
-    fam = draw(st.sampled_from(['mono', 'mono', 'noisy', 'plateau', 'ones', 'steps', 'bursts', 'convex']))
+    fam = draw(st.sampled_from(['mono', 'mono', 'noisy', 'plateau', 'ones', 'steps', 'bursts', 'convex', 'narrow', 'grid']))
     steps = draw(st.lists(st.integers(1, draw(st.sampled_from([1, 3, 50]))), min_size=n - 1, max_size=n - 1))
     x = [float(draw(st.integers(0, 20)))]
     for s in steps:
@@ -36,6 +36,19 @@ def cases(draw, tier):
         y = draw(st.lists(unit, min_size=n, max_size=n))
     elif fam == 'plateau':
         y = sorted([round(v, 1) for v in draw(st.lists(unit, min_size=n, max_size=n))], reverse=True)
+    elif fam == 'narrow':    # low-cacheability curve: the whole range is 1e-3 .. 1e-4 wide, small wiggles
+        w = draw(st.sampled_from([1e-3, 1e-4]))
+        vals = draw(st.lists(st.integers(0, 1000), min_size=n, max_size=n))
+        if draw(st.booleans()):
+            vals = sorted(vals, reverse=True)
+        y = [1.0 - w + w * v / 1000.0 for v in vals]
+    elif fam == 'grid':      # decimal grid whose step matches the y band (dy = 0.1 / 0.05)
+        step = draw(st.sampled_from([10, 20]))
+        vals = draw(st.lists(st.integers(0, step), min_size=n, max_size=n))
+        if draw(st.integers(0, 2)):
+            vals = sorted(vals, reverse=True)
+        vals[0], vals[-1] = step, 0
+        y = [v / float(step) for v in vals]
     elif fam == 'ones':
         y = [1.0] * n
     elif fam == 'steps':
